@@ -1,6 +1,6 @@
 (* Proofs about Filter/Sets.v (C12). *)
 From Coq Require Import List NArith Bool Lia Permutation Arith.
-From AdltV Require Import Filter.Sets.
+From AdltV Require Import Base.Res Base.MachInt Filter.Sets.
 Import ListNotations.
 Open Scope N_scope.
 
@@ -49,6 +49,11 @@ Proof.
   - intros H. destruct (existsb p l) eqn:E; [|reflexivity].
     apply existsb_exists in E. destruct E as [x [Hx Px]]. rewrite (H x Hx) in Px. discriminate.
 Qed.
+
+Lemma last_nonempty_default {A} (b : A) l d d' : last (b :: l) d = last (b :: l) d'.
+Proof. revert b. induction l as [|c l IH]; intros b; [reflexivity|]. cbn [last] in *. apply IH. Qed.
+Lemma last_cons_default {A} (a : A) l d : last (a :: l) d = last l a.
+Proof. destruct l as [|b l]; [reflexivity|]. cbn [last]. apply last_nonempty_default. Qed.
 
 Lemma kind_eqb_eq a b : kind_eqb a b = true <-> a = b.
 Proof. destruct a, b; cbn; split; intros H; try reflexivity; discriminate. Qed.
@@ -440,3 +445,183 @@ Section SetsProofs.
     relevant f = false -> filter relevant (fs1 ++ f :: fs2) = filter relevant (fs1 ++ fs2).
   Proof. intros H. rewrite !filter_app. cbn [filter]. rewrite H. reflexivity. Qed.
 End SetsProofs.
+
+(* ---------------------------------------------------------------- export plugin with lifecyclesToKeep *)
+Section ExportDyn.
+  Context {M : Type}.
+  Variable matches : flt -> M -> bool.
+  Variable rtime : M -> N.
+  Variable lc_of : M -> N.
+  Variable known : M -> bool.
+  Variable keeps : N -> M -> bool.
+  Variable lc_filter : list N -> flt.
+  Hypothesis lc_filter_neg : forall l, f_enabled (lc_filter l) = true /\ f_kind (lc_filter l) = Negative.
+
+  Notation step := (export_lc_step lc_of known keeps lc_filter).
+  Notation loop := (export_dyn_loop matches rtime lc_of known keeps lc_filter).
+
+  (* the lifecycle list of the lifecycle filter currently installed *)
+  Definition cur_lcs (s : xstate) : list N := match x_exported s with [] => [u32max] | l => l end.
+  Definition InvX (fs : list flt) (s : xstate) : Prop := x_c s = export_build fs (Some (lc_filter (cur_lcs s))).
+
+  Lemma init_inv fs to_keep : to_keep <> [] -> InvX fs (export_dyn_init lc_filter fs to_keep).
+  Proof. intros H. unfold InvX, export_dyn_init, cur_lcs. destruct to_keep; [congruence|reflexivity]. Qed.
+
+  Lemma init_no_keep fs : x_c (export_dyn_init lc_filter fs []) = build fs.
+  Proof. reflexivity. Qed.
+
+  Lemma step_inv fs h s m s' : InvX fs s -> step h s m = Ok s' -> InvX fs s'.
+  Proof.
+    unfold InvX, export_lc_step. intros I H.
+    destruct (negb (is_empty (x_to_keep s))); [|inversion H; subst; exact I].
+    destruct (negb (memN (lc_of m) (x_checked s))); [|inversion H; subst; exact I].
+    destruct h; [|inversion H; subst; exact I].
+    destruct (known m); [|discriminate].
+    destruct (position (fun e => keeps e m) (x_to_keep s)) as [idx|]; inversion H; subst; clear H; cbn [x_c x_exported].
+    - rewrite I, export_replace_lc_build. unfold cur_lcs. cbn [x_exported].
+      destruct (x_exported s); reflexivity.
+    - exact I.
+  Qed.
+
+  Lemma step_no_keep h s m : x_to_keep s = [] -> step h s m = Ok s.
+  Proof. intros H. unfold export_lc_step. rewrite H. reflexivity. Qed.
+
+  Lemma step_known h s m : known m = true -> exists s', step h s m = Ok s'.
+  Proof.
+    intros K. unfold export_lc_step. rewrite K.
+    destruct (negb (is_empty (x_to_keep s))); [|eexists; reflexivity].
+    destruct (negb (memN (lc_of m) (x_checked s))); [|eexists; reflexivity].
+    destruct h; eexists; reflexivity.
+  Qed.
+
+  (* exported lifecycles only grow, by the lifecycle of the current message *)
+  Lemma step_exported h s m s' :
+    step h s m = Ok s' -> x_exported s' = x_exported s \/ x_exported s' = x_exported s ++ [lc_of m].
+  Proof.
+    unfold export_lc_step. intros H.
+    destruct (negb (is_empty (x_to_keep s))); [|inversion H; auto].
+    destruct (negb (memN (lc_of m) (x_checked s))); [|inversion H; auto].
+    destruct h; [|inversion H; auto].
+    destruct (known m); [|discriminate].
+    destruct (position (fun e => keeps e m) (x_to_keep s)); inversion H; subst; cbn [x_exported]; auto.
+  Qed.
+
+  Lemma keep_set_spec_add_negative fs g m :
+    f_enabled g = true -> f_kind g = Negative ->
+    keep_set_spec matches (fs ++ [g]) m = keep_set_spec matches fs m && negb (matches g m).
+  Proof.
+    intros He Hk. unfold keep_set_spec, keep_spec, event_spec. rewrite !existsb_app. cbn [existsb].
+    unfold en_kind. rewrite He, Hk. cbn [andb kind_eqb orb]. rewrite !orb_false_r.
+    rewrite negb_orb. 
+    destruct (negb (existsb (fun f => f_enabled f && kind_eqb (f_kind f) Positive) fs)
+              || existsb (fun f => f_enabled f && kind_eqb (f_kind f) Positive && matches f m) fs); cbn [andb]; [|reflexivity].
+    destruct (negb (existsb (fun f => f_enabled f && kind_eqb (f_kind f) Negative && matches f m) fs)); cbn [andb]; [|reflexivity].
+    destruct (matches g m); cbn [negb andb]; [rewrite andb_false_r|rewrite andb_true_r]; reflexivity.
+  Qed.
+
+  Lemma dyn_decision fs s tf tt m :
+    InvX fs s ->
+    export_keep matches rtime (x_c s) tf tt m =
+    keep_set_spec matches fs m && negb (matches (lc_filter (cur_lcs s)) m) && in_window tf tt (rtime m).
+  Proof.
+    intros I. rewrite I.
+    rewrite (export_keep_spec matches rtime fs (Some (lc_filter (cur_lcs s))) tf tt m)
+      by (intros f E; inversion E; subst; apply lc_filter_neg).
+    destruct (lc_filter_neg (cur_lcs s)) as [He Hk].
+    rewrite (keep_set_spec_add_negative fs _ m He Hk). reflexivity.
+  Qed.
+
+  (* the state after the lifecycle step of each message *)
+  Fixpoint lc_trace (h : bool) (s : xstate) (msgs : list M) : res (list xstate) :=
+    match msgs with
+    | [] => Ok []
+    | m :: r =>
+        match step h s m with
+        | Ok s' => match lc_trace h s' r with Ok t => Ok (s' :: t) | Panic p => Panic p | OutOfFuel => OutOfFuel end
+        | Panic p => Panic p
+        | OutOfFuel => OutOfFuel
+        end
+    end.
+
+  Definition dyn_kept (tf tt : option N) (msgs : list M) (tr : list xstate) : list M :=
+    map fst (filter (fun p => export_keep matches rtime (x_c (snd p)) tf tt (fst p)) (combine msgs tr)).
+
+  Lemma loop_spec h tf tt msgs : forall s acc e p,
+    loop h s tf tt msgs acc e p =
+    match lc_trace h s msgs with
+    | Ok tr => Ok (rev acc ++ dyn_kept tf tt msgs tr, e + N.of_nat (length (dyn_kept tf tt msgs tr)),
+                   p + N.of_nat (length msgs), last tr s)
+    | Panic q => Panic q
+    | OutOfFuel => OutOfFuel
+    end.
+  Proof.
+    induction msgs as [|m r IH]; intros s acc e p.
+    - cbn. rewrite app_nil_r, !N.add_0_r. reflexivity.
+    - cbn [export_dyn_loop lc_trace]. destruct (step h s m) as [s'| |]; [|reflexivity|reflexivity].
+      destruct (export_keep matches rtime (x_c s') tf tt m) eqn:K; rewrite IH;
+        destruct (lc_trace h s' r) as [tr| |]; try reflexivity; unfold dyn_kept; cbn [combine filter fst snd]; rewrite K.
+      + cbn [map rev length fst]. rewrite <- app_assoc. cbn [app].
+        rewrite last_cons_default. f_equal.
+        repeat match goal with |- (_, _) = (_, _) => f_equal end; lia.
+      + cbn [length].
+        rewrite last_cons_default. f_equal.
+        repeat match goal with |- (_, _) = (_, _) => f_equal end; lia.
+  Qed.
+
+  Lemma lc_trace_ok h s msgs :
+    (forall m, In m msgs -> known m = true) -> exists tr, lc_trace h s msgs = Ok tr /\ length tr = length msgs.
+  Proof.
+    revert s. induction msgs as [|m r IH]; intros s K; [exists []; split; reflexivity|].
+    cbn [lc_trace]. destruct (step_known h s m (K m (or_introl eq_refl))) as [s' E]. rewrite E.
+    destruct (IH s' (fun x Hx => K x (or_intror Hx))) as [tr [Et El]]. rewrite Et.
+    exists (s' :: tr). split; [reflexivity|cbn; rewrite El; reflexivity].
+  Qed.
+
+  Lemma lc_trace_inv fs h s msgs tr :
+    InvX fs s -> lc_trace h s msgs = Ok tr -> Forall (InvX fs) tr.
+  Proof.
+    revert s tr. induction msgs as [|m r IH]; intros s tr I H.
+    - inversion H. constructor.
+    - cbn [lc_trace] in H. destruct (step h s m) as [s'| |] eqn:E; try discriminate.
+      destruct (lc_trace h s' r) as [t| |] eqn:Et; try discriminate. inversion H; subst.
+      pose proof (step_inv fs h s m s' I E) as I'. constructor; [exact I'|exact (IH s' t I' Et)].
+  Qed.
+
+  Definition dyn_kept_spec (fs : list flt) (tf tt : option N) (msgs : list M) (tr : list xstate) : list M :=
+    map fst (filter (fun p => keep_set_spec matches fs (fst p)
+                              && negb (matches (lc_filter (cur_lcs (snd p))) (fst p))
+                              && in_window tf tt (rtime (fst p))) (combine msgs tr)).
+
+  Theorem export_dyn_spec fs to_keep h tf tt msgs :
+    to_keep <> [] -> (forall m, In m msgs -> known m = true) ->
+    let s0 := export_dyn_init lc_filter fs to_keep in
+    exists tr,
+      lc_trace h s0 msgs = Ok tr /\ length tr = length msgs /\
+      Forall (fun s => x_c s = build (fs ++ [lc_filter (cur_lcs s)])) tr /\
+      loop h s0 tf tt msgs [] 0 0 =
+        Ok (dyn_kept_spec fs tf tt msgs tr, N.of_nat (length (dyn_kept_spec fs tf tt msgs tr)),
+            N.of_nat (length msgs), last tr s0).
+  Proof.
+    intros Hk K s0. destruct (lc_trace_ok h s0 msgs K) as [tr [Et El]].
+    pose proof (lc_trace_inv fs h s0 msgs tr (init_inv fs to_keep Hk) Et) as Finv.
+    exists tr. split; [exact Et|]. split; [exact El|]. split.
+    - eapply Forall_impl; [|exact Finv]. intros s I. unfold InvX in I. rewrite I.
+      destruct (lc_filter_neg (cur_lcs s)) as [He Hn]. apply export_build_as_set; assumption.
+    - rewrite loop_spec, Et. cbn [rev app]. rewrite !N.add_0_l.
+      assert (E : dyn_kept tf tt msgs tr = dyn_kept_spec fs tf tt msgs tr).
+      { unfold dyn_kept, dyn_kept_spec. f_equal. apply filter_ext_in. intros [m s] Hin. cbn [fst snd].
+        apply dyn_decision. rewrite Forall_forall in Finv. apply Finv. exact (in_combine_r _ _ _ _ Hin). }
+      rewrite E. reflexivity.
+  Qed.
+
+  (* without lifecyclesToKeep the lifecycle step never does anything *)
+  Lemma export_dyn_no_keep h tf tt msgs acc e p s :
+    x_to_keep s = [] ->
+    loop h s tf tt msgs acc e p =
+    Ok (let '(o, a, b) := export_loop matches rtime (x_c s) tf tt msgs acc e p in (o, a, b, s)).
+  Proof.
+    intros H. revert acc e p. induction msgs as [|m r IH]; intros acc e p; [reflexivity|].
+    cbn [export_dyn_loop export_loop]. rewrite (step_no_keep h s m H).
+    destruct (export_keep matches rtime (x_c s) tf tt m); apply IH.
+  Qed.
+End ExportDyn.
